@@ -417,7 +417,7 @@ func ReplayMain(t *testing.T, path string, verbose bool) (reproduced bool, msg s
 	var res *RunResult
 	switch rf.Driver {
 	case "provider":
-		res = RunProviderReplay(t, &rf)
+		res = RunProviderReplay(t, &rf, verbose)
 	case "pair":
 		res = RunPairReplay(t, &rf)
 	default:
